@@ -36,6 +36,10 @@ type outcome struct {
 
 // validate runs pkg.ValidateWithConfiguration under recover and a timeout.
 func validate(profile, data string, rc config.ReportConfiguration) outcome {
+	return validateAt(profile, data, rc, fixedClock{})
+}
+
+func validateAt(profile, data string, rc config.ReportConfiguration, clock config.ValidationConfiguration) outcome {
 	ch := make(chan outcome, 1)
 	go func() {
 		defer func() {
@@ -43,7 +47,7 @@ func validate(profile, data string, rc config.ReportConfiguration) outcome {
 				ch <- outcome{Kind: "panic", Err: fmt.Sprint(r)}
 			}
 		}()
-		rep, err := pkg.ValidateWithConfiguration(profile, data, dbg(profile, data), nil, fixedClock{}, rc)
+		rep, err := pkg.ValidateWithConfiguration(profile, data, dbg(profile, data), nil, clock, rc)
 		if err != nil {
 			ch <- outcome{Kind: "error", Err: err.Error()}
 			return
@@ -83,6 +87,19 @@ type caseRC struct {
 	Report      string `json:"report"`
 	Lexical     string `json:"lexical"`
 	IncludeDate bool   `json:"includeDate"`
+	// the constant instant the caller's clock returns (RFC 3339; empty = the harness's usual 2001 instant)
+	Clock string `json:"clock,omitempty"`
+}
+
+func clockOf(h caseHead) config.ValidationConfiguration {
+	if h.RC == nil || h.RC.Clock == "" {
+		return fixedClock{}
+	}
+	t, err := time.Parse(time.RFC3339, h.RC.Clock)
+	if err != nil {
+		return fixedClock{}
+	}
+	return clockAt{t}
 }
 
 func rcOf(h caseHead) config.ReportConfiguration {
